@@ -277,6 +277,24 @@ partial def loop (h : IO.FS.Stream) (c : Case) (st : Stats) : IO Stats := do
   | ["rwr", s] => loop h { c with rwRanges := if s == "-" then [] else (s.splitOn ",").map Drv.parseRange } st
   | ["rwod", s] => loop h { c with rwODrv := if s == "." then [] else (s.splitOn ",").map fun t => if t == "-" then none else some (t.toNat?.getD 1000000) } st
   | ["rwor", s] => loop h { c with rwORanges := if s == "-" then [] else (s.splitOn ",").map Drv.parseRange } st
+  | ["rwn", impl, nin, w0, same] =>
+    let m := rewireIsNoOp nin.toNat! (if w0 == "-" then none else some w0.toNat!) (same == "1") c.rwRanges
+    let mut st := st
+    if m then st := { st with rwHist := bump st.rwHist "isNoOp_true" }
+    if m != (impl == "1") then
+      IO.println s!"DIFF case={c.id} what=rewire-isNoOp model={m} impl={impl}"
+      st := { st with diffs := st.diffs + 1 }
+    -- the property on the implementation's answer: a node declared a no-op must compute the value at its input 0
+    if impl == "1" then
+      let val : Option Nat → Option BV4 := fun o => match o with
+        | none => none
+        | some i => (c.rwVals.find? (·.1 == i)).map (·.2)
+      let ins := c.rwDrv.map val
+      let v := evalRewire c.rwRanges ins
+      if some v != ins.getD 0 none then
+        IO.println s!"PROPFAIL case={c.id} what=rewire-isNoOp pass=removeNoOps node_value={BV4.toString v} input0={((ins.getD 0 none).map BV4.toString).getD "none"}"
+        st := { st with propfails := st.propfails + 1 }
+    loop h c st
   | ["rwv", id, v] => loop h { c with rwVals := (id.toNat!, BV4.ofString v) :: c.rwVals } st
   | ["rwe"] =>
     let (mr, md) := rewireOptimize c.rwKinds c.rwDrv c.rwRanges
